@@ -87,6 +87,20 @@ func corpus() []*lsx.Hist {
 	}
 }
 
+// volumes of the thorough tier; the -race build is an order of magnitude slower
+func thoroughHist() int {
+	if lsx.RaceEnabled {
+		return 2000
+	}
+	return 6000
+}
+func thoroughConc() int {
+	if lsx.RaceEnabled {
+		return 50
+	}
+	return 60
+}
+
 func main() {
 	run := hx.Start("C13", "Aurora.C13.Corr",
 		"histories of 10..45 operations over 2-3 files (root + 1..5 chunks, shared and repeated chunks) in a 6-8 address universe: single-chunk request puts under the file context, gets, pin/unpin chunk by chunk, removals, uploads, rare batched calls and API-mix operations, collection runs with capacity 4..12 (pyramid table from the generator's files, sometimes incomplete), accesses injected at the interleaving point, reopen of on-disk stores; non-trivial = history with at least one collection run that started or a reopen; distinct by (base key, operations)")
@@ -142,7 +156,7 @@ func main() {
 	for _, h := range corpus() {
 		replayHist(h)
 	}
-	for i := 0; i < run.N(150, 6000); i++ {
+	for i := 0; i < run.N(150, thoroughHist()); i++ {
 		r := run.R.Fork(uint64(i))
 		capacity := uint64(3 + r.Intn(7))
 		g, err := lsx.NewGen(r, "cache", capacity, r.Chance(1, 4))
@@ -163,10 +177,10 @@ func main() {
 	_ = fmt.Sprint
 	// concurrency layer: overlapping request-mode Gets of one cached file (their updateGC goroutines
 	// queue on batchMu behind a large batched Put), and racing request puts under a file context
-	for i := 0; i < run.N(6, 60); i++ {
+	for i := 0; i < run.N(6, thoroughConc()); i++ {
 		lsx.ConcGets(run, lsx.ConcCase{Kind: "conc-get", Seed: run.R.U64(), Threads: 2 + run.R.Intn(5), Rounds: run.N(5, 12)})
 	}
-	for i := 0; i < run.N(2, 20); i++ {
+	for i := 0; i < run.N(2, thoroughConc()/3); i++ {
 		lsx.ConcPuts(run, lsx.ConcCase{Kind: "conc-put", Seed: run.R.U64(), Mode: 0, Ctx: true, Threads: 2 + run.R.Intn(4), Rounds: run.N(4, 10)})
 	}
 	run.Finish()
